@@ -17,7 +17,7 @@ fn pk_decode_total<const N: usize>() {
     let s = unsafe { std::str::from_utf8_unchecked(&b) };
     // totality: returns a value or an error, never panics
     let r = PublicKey::decode_base64(s);
-    vwit::cover!(r.is_ok());
+    vwit::cover!(N < 43 || r.is_ok());
     vwit::cover!(r.is_err());
     std::mem::forget(r);
 }
@@ -41,6 +41,11 @@ macro_rules! dec_h {
 pub fn stub_format(_args: std::fmt::Arguments<'_>) -> String {
     String::new()
 }
+/// Stub for `core::str::from_utf8` in the key round-trip harnesses: base64 text is ASCII by construction of the alphabet, and
+/// the byte-by-byte UTF-8 validation of 44 symbolic bytes dominates symbolic execution (trusted-base item of C18).
+pub fn stub_from_utf8(v: &[u8]) -> Result<&str, std::str::Utf8Error> {
+    Ok(unsafe { std::str::from_utf8_unchecked(v) })
+}
 dec_h!(c15_pk_decode_len4, pk_decode_total, 4);
 dec_h!(c15_pk_decode_len8, pk_decode_total, 8);
 dec_h!(c15_pk_decode_len44, pk_decode_total, 44);
@@ -51,6 +56,7 @@ dec_h!(c15_sk_decode_len44, sk_decode_total, 44);
 #[kani::proof]
 #[kani::unwind(100)]
 #[kani::stub(std::fmt::format, stub_format)]
+#[kani::stub(std::str::from_utf8, stub_from_utf8)]
 fn c18_pk_roundtrip() {
     let k = PublicKey(vwit::any_bytes::<32>());
     let s = k.encode_base64();
@@ -82,4 +88,71 @@ fn c18_signature_layout() {
         i += 1;
     }
     vwit::cover!(f[0] != f[32]);
+}
+
+/// decode(encode(k)) == k for every public key whose bytes outside the window [LO, LO+6) are zero (the full 32-byte
+/// symbolic round trip is in the thorough tier).
+fn pk_roundtrip_window(lo: usize) {
+    let w: [u8; 6] = vwit::any_bytes::<6>();
+    let mut k = PublicKey([0u8; 32]);
+    let mut i = 0;
+    while i < 6 {
+        k.0[lo + i] = w[i];
+        i += 1;
+    }
+    let s = k.encode_base64();
+    assert!(s.len() == 44, "C18 public key text length");
+    match PublicKey::decode_base64(&s) {
+        Ok(k2) => {
+            let mut i = 0;
+            while i < 32 {
+                assert!(k2.0[i] == k.0[i], "C18 public key changed by encode/decode");
+                i += 1;
+            }
+        }
+        Err(_) => assert!(false, "C18 encoded public key does not decode"),
+    }
+    vwit::cover!(w[0] == 0xff && w[5] == 0x01);
+    std::mem::forget(s);
+}
+#[kani::proof]
+#[kani::unwind(100)]
+#[kani::stub(std::fmt::format, stub_format)]
+#[kani::stub(std::str::from_utf8, stub_from_utf8)]
+fn c18_pk_roundtrip_head() { pk_roundtrip_window(0) }
+#[kani::proof]
+#[kani::unwind(100)]
+#[kani::stub(std::fmt::format, stub_format)]
+#[kani::stub(std::str::from_utf8, stub_from_utf8)]
+fn c18_pk_roundtrip_tail() { pk_roundtrip_window(26) }
+#[kani::proof]
+#[kani::unwind(100)]
+#[kani::stub(std::fmt::format, stub_format)]
+#[kani::stub(std::str::from_utf8, stub_from_utf8)]
+fn c18_pk_roundtrip_mid() { pk_roundtrip_window(13) }
+
+/// decode(encode(k)) == k for every 64-byte secret key.
+#[kani::proof]
+#[kani::unwind(100)]
+#[kani::stub(std::fmt::format, stub_format)]
+#[kani::stub(std::str::from_utf8, stub_from_utf8)]
+fn c18_sk_roundtrip() {
+    let raw: [u8; 64] = vwit::any_bytes::<64>();
+    let k = SecretKey(raw);
+    let s = k.encode_base64();
+    assert!(s.len() == 88, "C18 secret key text length");
+    match SecretKey::decode_base64(&s) {
+        Ok(k2) => {
+            let mut i = 0;
+            while i < 64 {
+                assert!(k2.0[i] == raw[i], "C18 secret key changed by encode/decode");
+                i += 1;
+            }
+            std::mem::forget(k2);
+        }
+        Err(_) => assert!(false, "C18 encoded secret key does not decode"),
+    }
+    vwit::cover!(raw[63] == 0xff);
+    std::mem::forget(s);
+    std::mem::forget(k);
 }
